@@ -30,6 +30,7 @@ type Config struct {
 	MaxConcreteAlloc int
 	MapPermMax       int
 	MapVariants      int
+	MapOrderBudget   int
 	TrackLib         bool
 	Workers          int
 	TimeoutMs        int
@@ -42,7 +43,7 @@ type Config struct {
 
 func defaultConfig() Config {
 	return Config{Preempt: 2, MaxSteps: 2000000, Unwind: 4096, MaxDepth: 200, MaxConcretize: 300,
-		AllocCap: 16, MaxConcreteAlloc: 1 << 20, MapPermMax: 3, MapVariants: 2, Workers: 16,
+		AllocCap: 16, MaxConcreteAlloc: 1 << 20, MapPermMax: 3, MapVariants: 2, MapOrderBudget: 2, Workers: 16,
 		TimeoutMs: 10000, Solvers: []string{"z3", "cvc5-int", "cvc5"}, MaxPaths: 2000000,
 		Params: map[string]int{}}
 }
@@ -61,6 +62,7 @@ type Engine struct {
 	redirects map[string]*ssa.Function
 	intr      map[string]intrinsicFn
 	intrCache sync.Map // *ssa.Function -> intrinsicFn or nil marker
+	harnessFn sync.Map
 
 	runtimeErrorType types.Type
 	errorStringPtr   types.Type
@@ -122,6 +124,20 @@ func (e *Engine) inRepo(fn *ssa.Function) bool {
 	}
 	pth := fn.Pkg.Pkg.Path()
 	return strings.HasPrefix(pth, modPath) && !strings.HasPrefix(pth, apiPkg)
+}
+
+// isHarnessFn reports whether fn is defined in a harness file (zz_verif_*.go).
+func (e *Engine) isHarnessFn(fn *ssa.Function) bool {
+	for fn.Parent() != nil {
+		fn = fn.Parent()
+	}
+	if v, ok := e.harnessFn.Load(fn); ok {
+		return v.(bool)
+	}
+	f := e.prog.Fset.File(fn.Pos())
+	r := f != nil && strings.Contains(f.Name(), "zz_verif_")
+	e.harnessFn.Store(fn, r)
+	return r
 }
 
 func (e *Engine) push(h *ssa.Function, prefix []decision, model map[string]uint64) {
